@@ -152,9 +152,9 @@ func Ite(c bool, a, b int) int {
 	}
 	return b
 }
-func And(a, b bool) bool { return a && b }
-func Or(a, b bool) bool  { return a || b }
-func Not(a bool) bool    { return !a }
+func And(a, b bool) bool     { return a && b }
+func Or(a, b bool) bool      { return a || b }
+func Not(a bool) bool        { return !a }
 func Implies(a, b bool) bool { return !a || b }
 func IteB(c, a, b bool) bool {
 	if c {
@@ -166,11 +166,11 @@ func IteB(c, a, b bool) bool {
 // Tier is 0 for quick, 1 for thorough.
 var tier = 0
 
-func Tier() int      { return tier }
-func SetTier(t int)  { tier = t }
+func Tier() int     { return tier }
+func SetTier(t int) { tier = t }
 
 // Schedule knobs (engine only; no-ops natively).
-func PoolChoice(on bool) {}
+func PoolChoice(on bool)     {}
 func MapOrderChoice(on bool) {}
 
 // Concrete reports whether v is free of symbolic parts (always true natively).
@@ -183,11 +183,11 @@ func Sprint(a ...any) string { return fmt.Sprint(a...) }
 
 // Itoa / Ftoa render a number the way strconv does; the engine keeps the link to the
 // number so that the inverse parser is exact.
-func Itoa(n int) string { return strconv.Itoa(n) }
-func Ftoa(f float64) string { return strconv.FormatFloat(f, 'g', -1, 64) }
+func Itoa(n int) string       { return strconv.Itoa(n) }
+func Ftoa(f float64) string   { return strconv.FormatFloat(f, 'g', -1, 64) }
 func Trunc(f float64) float64 { return math.Trunc(f) }
-func IsNaN(f float64) bool { return f != f }
-func IsInf(f float64) bool { return math.IsInf(f, 0) }
+func IsNaN(f float64) bool    { return f != f }
+func IsInf(f float64) bool    { return math.IsInf(f, 0) }
 
 // SameBits: identical as IEEE values (NaN equals NaN, +0 differs from -0).
 func SameBits(a, b float64) bool {
@@ -204,7 +204,7 @@ func Native() bool { return true }
 // Freeze declares the objects shared between executions (engine: while frozen, any store into
 // a cell reachable from them or from zog's package-level variables is a violation).
 func Freeze(roots ...any) {}
-func Unfreeze()            {}
+func Unfreeze()           {}
 
 // ConcurrencyReps is how often each goroutine repeats its body in a native run.
 var ConcurrencyReps = 200
